@@ -50,8 +50,12 @@ def main():
             if cfg != "default":
                 # a violation names the configuration it appears in; the same obligation in the
                 # default build is reported once
-                seen = {o.key for o in allobs}
-                obs = [o for o in obs if o.key not in seen]
+                seen = {o.key: o.status for o in allobs}
+                # an obligation that holds in the default build but not in this configuration is still a violation
+                obs = [o for o in obs if o.key not in seen or (o.status == "open" and seen[o.key] != "open")]
+                # "anchor not found" obligations carry no site; in a configuration that compiles only part of the workspace they
+                # mean "this crate is not built here" (the default configuration, which builds everything, fails closed on them)
+                obs = [o for o in obs if not (o.status == "open" and not o.site)]
                 for o in obs:
                     if o.status == "open":
                         o.why = "[cfg %s] %s" % (cfg, o.why)
